@@ -259,8 +259,10 @@ class FunctionInfo:
 
     @property
     def is_property(self):
-        return any(isinstance(d, ast.Name) and d.id == 'property'
-                   for d in self.decorators)
+        return any((isinstance(d, ast.Name) and d.id in (
+            'property', 'cached_property')) or (
+                isinstance(d, ast.Attribute) and d.attr == 'cached_property')
+            for d in self.decorators)
 
     def defaults(self):
         """Mapping parameter -> default ast node."""
